@@ -83,6 +83,17 @@ func checkC17(c Case) *Failure {
 		return c17Triple(c)
 	case "result-string-roundtrip":
 		return c17ResultRoundTrip(c)
+	case "exists-vs-query":
+		p, err, pan := parseCached(c.Path)
+		if err != nil || pan != "" {
+			return nil
+		}
+		cfg := cfgOf(c)
+		q, e := implQuery(p, nil, cfg), implExists(p, nil, cfg)
+		if (q.Class == "ok" && (e.Class != "ok" || e.Bool != (len(q.Items) > 0))) || (q.Class != "ok" && e.Class == "ok" && e.Bool) || (q.Class == "hard" && e.Class != "hard") {
+			return &Failure{Sig: "C17/exists-vs-query", Expected: "Query: " + q.String(), Observed: "Exists: " + e.String()}
+		}
+		return nil
 	}
 	f, _ := compareQueryWithRef("C17", c, nil)
 	return f
@@ -94,7 +105,7 @@ type c17Val struct{ s, m string } // string and the method that types it
 
 func c17CmpGrid() []c17Val {
 	var out []c17Val
-	for _, d := range []string{"2015-08-01", "2015-08-02", "2015-08-03", "2015-11-01", "2015-10-04"} {
+	for _, d := range []string{"2015-08-01", "2015-08-02", "2015-08-03", "2015-11-01", "2015-10-04", "0001-01-01", "9999-12-31", "1677-09-21", "2262-04-12"} {
 		out = append(out, c17Val{d, "date"})
 	}
 	for _, t := range []string{"00:00:00", "12:00:00", "12:00:00.5", "23:59:59"} {
@@ -111,6 +122,7 @@ func c17CmpGrid() []c17Val {
 	for _, t := range []string{"2015-08-02T00:00:00+00:00", "2015-08-02T01:00:00+01:00", "2015-08-01T20:00:00-04:00", "2015-08-02T00:00:00-04:00", "2015-08-02T04:00:00+00:00",
 		"2015-08-02T00:00:00+05:30", "2015-08-01T18:30:00+00:00", "2015-08-02T08:00:00+00:00", "2015-08-02T00:00:00-08:00", "2015-11-01T05:30:00+00:00", "2015-11-01T06:30:00+00:00", "2015-10-03T14:00:00+00:00", "2015-10-03T13:00:00+00:00",
 		// 10 to 14 hours before / after local midnight of 2015-08-02 in the extreme zones
+		"0001-01-01T00:00:00+00:00", "9999-12-31T23:59:59+00:00", "1677-09-21T00:12:43+00:00", "2262-04-11T23:47:17+00:00",
 		"2015-08-01T11:00:00+00:00", "2015-08-01T10:00:00+00:00", "2015-08-01T09:59:59+00:00", "2015-08-02T12:00:00+00:00", "2015-08-02T11:59:59+00:00", "2015-08-01T12:00:00+00:00"} {
 		out = append(out, c17Val{t, "timestamp_tz"})
 	}
@@ -213,6 +225,30 @@ func c17Compare(c Case) *Failure {
 				}
 			}
 		}
+		// the same comparison with the left operand delivered twice through [*] (a sequence of two equal
+		// items): lax comparison is existential, so the outcome is the same
+		if op == "<" || op == "==" {
+			mtext := "$c[*]." + x.m + "() " + op + " $b." + y.m + "()"
+			pm, perr, ppan := parseCached(mtext)
+			if perr != nil || ppan != "" {
+				return &Failure{Sig: "C17/harness/multi-item-comparison-does-not-parse", Expected: "parses", Observed: mtext}
+			}
+			om := implQuery(pm, nil, runCfg{vars: map[string]any{"c": []any{x.s, x.s}, "b": y.s}, tz: c.TZ, zone: c.Zone})
+			got := "?"
+			switch {
+			case om.Class == "hard":
+				got = "E"
+			case om.Class == "ok" && len(om.Items) == 1 && om.Items[0] == true:
+				got = "T"
+			case om.Class == "ok" && len(om.Items) == 1 && om.Items[0] == false:
+				got = "F"
+			case om.Class == "ok" && len(om.Items) == 1 && om.Items[0] == nil:
+				got = "U"
+			}
+			if got != o {
+				return &Failure{Sig: "C17/compare/two-equal-items-differ-from-one/" + kinds + "/" + zoneClass(c.Zone), Expected: o + ": " + detail, Observed: got + ": " + mtext + " => " + om.String()}
+			}
+		}
 		// duality
 		m, _ := c17CmpObserve(y, x, map[string]string{"<": ">", ">": "<", "<=": ">=", ">=": "<=", "==": "==", "!=": "!="}[op], c.TZ, c.Zone, "")
 		if m != o {
@@ -258,7 +294,7 @@ func c17Triple(c Case) *Failure {
 }
 
 func runC17(r *Run) {
-	r.Rule("a grid of datetime strings (5 kinds x 9 dates incl. year/day boundaries and the DST transition days of New York and Sydney/Lord Howe x 7 times x 8-15 fractions of 0..9 digits incl. rounding carries x 7-12 offset spellings -12..+14 incl. half hours, Z, +hh and +hh:mm x T/space, plus 28 unrecognised forms) x six methods x precisions 0..7 and absent x {WithTZ, not} x context zones {none, UTC, +05:30, -08:00, America/New_York, Australia/Lord_Howe, America/Chicago, Asia/Shanghai, Australia/Sydney, +14:00, +12:45, -12:00, and contexts whose zone replaces an earlier one (UTC over +05:30, -08:00 over UTC, +05:30 over -08:00)} against the reference civil-time model (recognised forms, resulting type, cast matrix with the tz-required error, rounding to min(p,6)); all ordered pairs of a 51-value comparison grid (incl. the Sydney/Lord Howe transition day 2015-10-04) x 6 operators x zones: reference order, antisymmetry, comparison = comparison after explicit casts to the common type, time vs date/timestamp unknown; all triples for transitivity; non-trivial = reference yields items or an error")
+	r.Rule("a grid of datetime strings (5 kinds x 9 dates incl. year/day boundaries and the DST transition days of New York and Sydney/Lord Howe x 7 times x 8-15 fractions of 0..9 digits incl. rounding carries x 7-12 offset spellings -12..+14 incl. half hours, Z, +hh and +hh:mm x T/space, plus 28 unrecognised forms) x six methods x precisions 0..7 and absent x {WithTZ, not} x context zones {none, UTC, +05:30, -08:00, America/New_York, Australia/Lord_Howe, America/Chicago, Asia/Shanghai, Australia/Sydney, +14:00, +12:45, -12:00, and contexts whose zone replaces an earlier one (UTC over +05:30, -08:00 over UTC, +05:30 over -08:00)} against the reference civil-time model (recognised forms, resulting type, cast matrix with the tz-required error, rounding to min(p,6)); all ordered pairs of a 59-value comparison grid (incl. years 1, 1677, 2262, 9999) (incl. the Sydney/Lord Howe transition day 2015-10-04) x 6 operators x zones: reference order, antisymmetry, comparison = comparison after explicit casts to the common type, time vs date/timestamp unknown; all triples for transitivity; non-trivial = reference yields items or an error")
 	strs := c17Strings(r.Thorough())
 	paths := c17Paths()
 	r.Bound("datetime_strings", len(strs))
@@ -273,6 +309,37 @@ func runC17(r *Run) {
 	r.Bound("configurations", len(cfgs))
 	refSweep(r, "datetime-methods-vs-reference", paths, makeDocs([]any{nil}), cfgs)
 
+	// the existence-only evaluation of the same method calls: Exists is true iff Query delivers an item
+	// and never true where Query fails (one fifth of the strings per path)
+	r.ParFor(len(paths), func(i int) {
+		text := paths[i].String()
+		p, err, pan := parseCached(text)
+		if err != nil || pan != "" {
+			return
+		}
+		r.Note(i, text)
+		for si := i % 5; si < len(strs); si += 5 {
+			for _, tz := range []bool{true, false} {
+				cfg := runCfg{vars: map[string]any{"a": strs[si]}, tz: tz, zone: "+05:30"}
+				q, e := implQuery(p, nil, cfg), implExists(p, nil, cfg)
+				r.evals.Add(1)
+				r.traces.Add(2)
+				bad := ""
+				switch {
+				case q.Class == "ok" && (e.Class != "ok" || e.Bool != (len(q.Items) > 0)):
+					bad = "exists-differs-from-successful-query"
+				case q.Class != "ok" && e.Class == "ok" && e.Bool:
+					bad = "exists-true-although-query-fails"
+				case q.Class == "hard" && e.Class != "hard":
+					bad = "exists-loses-non-suppressible-error"
+				}
+				if bad != "" {
+					c := Case{Rule: "exists-vs-query", Path: text, TZ: tz, Zone: "+05:30", Vars: map[string]string{"a": "s:" + strs[si]}}
+					r.Fail(c, &Failure{Sig: "C17/" + bad, Expected: "Query: " + q.String(), Observed: "Exists: " + e.String()})
+				}
+			}
+		}
+	})
 	// a value a method returns equals the value obtained from its own .string() rendering (also after
 	// rounding carries): relation between real executions
 	var rts []Case
